@@ -80,6 +80,10 @@ def run(run):
     for front, framing in SH.FRONT_FRAMINGS:
         for i in range(n):
             case = SH.gen_case(r, front, framing, uniq, max_per_read=1 if framing == 'tls' else 3)
+            if i % 10 == 7 and framing in ('tcp', 'ascii'):
+                # long pipelined bursts: up to 40 requests per read, up to the 1024 bytes the threaded handlers ask for per call
+                case = SH.cap_reads(SH.gen_case(r, front, framing, uniq, max_per_read=40, nreq=r.choice([40, 80])))
+                run.count('histories_with_long_bursts')
             if i % 25 == 24 and not front.startswith('tw'):
                 # a force-listen-only request: must not be answered
                 case['reads'].insert(len(case['reads']) // 2, [[int(next(iter(case['layout']['units']))), 7, {'dir': 'req', 'fc': 8, 'sub': 4, 'data': [0]}]])
